@@ -304,6 +304,71 @@ def xml_shard(arg):
 
 
 # =====================================================================================================
+# (4) length boundary grid: identifiers, type names, strings and numbers whose length crosses the lexer's MAXLEN
+#     (4000) in every position class, sanitized build (the semantic values are fixed-size char arrays)
+def length_docs(t):
+    lens = list(range(3994, 4008)) + [7999, 8000, 8001] if t == "thorough" else [3998, 3999, 4000, 4001, 4002, 8000]
+    sink = ('<template><name>T</name><parameter>%s</parameter><declaration>%s</declaration><location id="id0"><name>%s</name>%s</location>'
+            '<init ref="id0"/><transition><source ref="id0"/><target ref="id0"/>%s</transition></template>')
+    out = []
+    for n in lens:
+        v = "v" * n
+        d = "9" * n
+        cases = {
+            "variable-name": X.nta("int %s; int k = %s;" % (v, v), [sink % ("", "", "L0", "", "")], "system T;"),
+            "typedef-name": X.nta("typedef int[0,1] %s; %s k;" % (v, v), [sink % ("", "", "L0", "", "")], "system T;"),
+            "function-name": X.nta("int %s(int q) { return q; } int k = %s(1);" % (v, v), [sink % ("", "", "L0", "", "")], "system T;"),
+            "field-name": X.nta("struct { int %s; } s; int k = s.%s;" % (v, v), [sink % ("", "", "L0", "", "")], "system T;"),
+            "parameter-name": X.nta("int k;", [sink % ("int " + v, "", "L0", "", PS.lab("guard", v + " &gt; 0"))], "P = T(1); system P;"),
+            "location-name": X.nta("int k;", [sink % ("", "", v, "", "")], "system T;", queries=["E<> T." + v]),
+            "select-name": X.nta("int k;", [sink % ("", "", "L0", "", PS.lab("select", v + " : int[0,1]") + PS.lab("guard", v + " == 0"))], "system T;"),
+            "undeclared-use": X.nta("int k;", [sink % ("", "", "L0", PS.lab("invariant", v + " &lt; 1"), "")], "system T;"),
+            "process-name": X.nta("int k;", [sink % ("", "", "L0", "", "")], "%s = T(); system %s;" % (v, v)),
+            "template-name": X.nta("int k;", [(sink % ("", "", "L0", "", "")).replace("<name>T</name>", "<name>%s</name>" % v)], "system %s;" % v),
+            "number": X.nta("int k = %s;" % d, [sink % ("", "", "L0", "", "")], "system T;"),
+            "float": X.nta("double k = 0.%s;" % d, [sink % ("", "", "L0", "", "")], "system T;"),
+            "string": X.nta('import "%s" { int f(); };' % v, [sink % ("", "", "L0", "", "")], "system T;"),
+            "comment": X.nta("int k; /* %s */ // %s" % (v, v), [sink % ("", "", "L0", "", "")], "system T;"),
+            "chained-source": None,
+        }
+        for cname, doc in cases.items():
+            if doc is not None:
+                out.append(("length:%s:%d" % (cname, n), doc, "xml"))
+        out.append(("length:xta-chained-source:%d" % n, "process T() { state %s, B; init B; trans %s -> B { }, -> %s { }; } system T;" % (v, v, v), "xta"))
+        out.append(("length:xta-old-syntax:%d" % n, "int %s; process T { state B; init B; } system T;" % v, "xta-old"))
+    return out
+
+
+def length_shard(arg):
+    t, i, n = arg
+    part = engine.Part()
+    w = engine.worker("san")
+    docs = [d for k, d in enumerate(length_docs(t)) if k % n == i]
+    for kind in ("xml", "xta", "xta-old"):
+        sel = [d for d in docs if d[2] == kind]
+        res = X.run_docs(w, [d[1] for d in sel], want=[], batch=10, kind="xml" if kind == "xml" else "xta", newxta=kind != "xta-old",
+                         timeout=120, one_timeout=30)
+        for (lab_, doc, _), r in zip(sel, res):
+            part.count()
+            part.nontrivial_case(lab_)
+            cls = ":".join(lab_.split(":")[:2])
+            rp = {"op": "xml" if kind == "xml" else "xta", "newxta": kind != "xta-old",
+                  "buf": "<generated by checks/c01.py length_docs(): %s>" % lab_}
+            if r.get("died"):
+                sig = engine.crash_signature(r)
+                part.outcome("crash")
+                part.violation("crash:%s:%s" % (sig, cls), "%s: %s: %s" % (lab_, sig, (r.get("stderr") or "")[-300:].replace("\n", " | ")), rp)
+            elif engine.sanitizer_hit(r):
+                part.outcome("sanitizer-report")
+                part.violation("san:%s:%s" % (engine.crash_signature(r), cls), "%s: %s" % (lab_, (r.get("stderr") or "")[:300].replace("\n", " | ")), rp)
+            elif r.get("exc") is not None and r.get("std") is False:
+                part.violation("nonstd-exception:%s:%s" % (r["exc"], cls), "%s ends in %s" % (lab_, r["exc"]), rp)
+            else:
+                part.outcome("length:" + ("std-exception" if r.get("exc") else ("diagnostics" if r.get("errors") else "accepted")))
+    return part.result()
+
+
+# =====================================================================================================
 # (3) growth families: no crash at any size, time roughly proportional to the size
 def growth_families():
     F = {}
@@ -421,6 +486,8 @@ def main():
     n = engine.ncpu()
     for res in engine.pmap(xml_shard, [(t, i, 4 * n) for i in range(4 * n)]):
         rep.merge(res)
+    for res in engine.pmap(length_shard, [(t, i, 2 * n) for i in range(2 * n)]):
+        rep.merge(res)
     sizes = [10, 100, 1000, 5000, 10000] if t == "quick" else [10, 100, 1000, 10000, 30000, 100000]
     for res in engine.pmap(growth_shard, [(name, sizes) for name in growth_families()]):
         rep.merge(res)
@@ -435,8 +502,10 @@ def main():
                 "(bison stack, lexer state, shifted values, builder stacks, document summary) at the observation point before end of "
                 "input; distinct = distinct digest. (2) every single structural fault (delete/duplicate/wrap/rename/swap element, empty or "
                 "hostile text, drop/empty/alias/long attribute), every truncation and byte substitution of a kitchen-sink document, the "
-                "repository models through buffer/fd/file with truncations. (3) %d growth families at sizes %s on the -O2 build."
-                % (len(cfgs), len(growth_families()), sizes))
+                "repository models through buffer/fd/file with truncations. (3) %d growth families at sizes %s on the -O2 build. "
+                "(4) %d documents whose identifiers / type names / numbers / strings / comments have lengths around the lexer's "
+                "MAXLEN=4000 in 16 position classes, sanitized build."
+                % (len(cfgs), len(growth_families()), sizes, len(length_docs(t))))
     rep.nontrivial_count = states + len(xml_docs(t))
     rep.assumptions = ["digest pruning is sound if the digest covers everything later callbacks read (argued in DESIGN.md §3/C01); the "
                        "'shape' digest runs are heuristic and are not counted as exhaustive",
